@@ -43,12 +43,29 @@ var hostile = []string{
 func evalC11(k c11Case) []pbt.Violation {
 	var vs []pbt.Violation
 	if !k.OutOfProcess {
-		if _, _, pmsg, psig := inproc.Format(k.Text); pmsg != "" {
-			vs = append(vs, pbt.Violation{Signature: "panic:" + psig, Detail: "FormatPacketDsl panics: " + pmsg})
+		// a fatal error (stack overflow) kills this process: leave the input where the driver finds it
+		if dir := os.Getenv("VERIF_RUNDIR"); dir != "" {
+			b, _ := json.Marshal(map[string]any{"text": k.Text, "class": k.Class, "oop": true})
+			_ = os.WriteFile(filepath.Join(dir, fmt.Sprintf("current-input-%s.json", os.Getenv("VERIF_SHARD"))), b, 0o644)
 		}
-		res := inproc.Compile(k.Text, inproc.Langs)
-		if res.Panic != "" {
-			vs = append(vs, pbt.Violation{Signature: "panic:" + res.PanicSig, Detail: "compile panics: " + res.Panic})
+		limit := 30 * time.Second
+		if len(k.Text) > 20000 {
+			limit = 180 * time.Second
+		}
+		if !inproc.WithTimeout(limit, func() {
+			if _, _, pmsg, psig := inproc.Format(k.Text); pmsg != "" {
+				vs = append(vs, pbt.Violation{Signature: "panic:" + psig, Detail: "FormatPacketDsl panics: " + pmsg})
+			}
+		}) {
+			return []pbt.Violation{{Signature: "hang:format", Detail: fmt.Sprintf("FormatPacketDsl did not return within %v on a %d-byte input", limit, len(k.Text)), Fatal: true}}
+		}
+		if !inproc.WithTimeout(limit, func() {
+			res := inproc.Compile(k.Text, inproc.Langs)
+			if res.Panic != "" {
+				vs = append(vs, pbt.Violation{Signature: "panic:" + res.PanicSig, Detail: "compile panics: " + res.Panic})
+			}
+		}) {
+			return []pbt.Violation{{Signature: "hang:compile", Detail: fmt.Sprintf("parse/generate did not return within %v on a %d-byte input", limit, len(k.Text)), Fatal: true}}
 		}
 		return vs
 	}
@@ -300,7 +317,7 @@ func TestC11(t *testing.T) {
 		}
 		c.Report(rt, k, evalC11(k))
 		// a sample of the in-process inputs also goes through the real entry points
-		if !k.OutOfProcess && n%60 == 0 {
+		if !k.OutOfProcess && rapid.IntRange(0, 59).Draw(rt, "also_out_of_process") == 0 {
 			ko := k
 			ko.OutOfProcess = true
 			c.Eval()
